@@ -346,6 +346,48 @@ def exact_read_back(ctx, repo, rule, readers=None, writers=None):
     ctx.floor(rule, "word round trips evaluated", n_rb, 4 * 65536)
 
 
+def temperature_on_real_bytes(ctx, repo, rule):
+    """unit item and temperature item built by their constructors on a model structure; nine words across the 16-bit
+    range x both units: presented value and write-back (see R8)"""
+    from ..absint import ClassRef as _CR8, Native as _N8, Obj as _O8
+    gc8 = repo.cls("GeckoConstants")
+    KEY8 = repo.fold(gc8.consts["KEY_TEMP_UNITS"], gc8.mod, gc8)
+    n8 = 0
+    for unit_bit, unit in ((0, "C"), (1, "F")):
+        for raw in (0, 1, 670, 671, 719, 32767, 32768, 40000, 65535):
+            blk = bytearray(64)
+            blk[13] = 0x04 if unit_bit else 0
+            blk[15], blk[16] = raw >> 8, raw & 0xFF
+            it8 = Interp(repo, max_depth=12)
+            writes = []
+            st8 = _O8(None, {"status_block": bytes(blk), "accessors": {}}, name="struct")
+            st8.attrs["set_value"] = _N8(lambda a, k, w=writes: w.append(tuple(a)), "set_value")
+            st8.attrs["async_set_value"] = _N8(lambda a, k, w=writes: w.append(tuple(a)), "async_set_value")
+            want = raw / 18.0 if unit == "C" else (raw + 320) / 10.0
+            try:
+                units8 = it8.apply(_CR8(repo.cls("GeckoEnumStructAccessor")), [st8, KEY8, 13, 2, ["C", "F"], None, 2, "ALL"], {})
+                temp8 = it8.apply(_CR8(repo.cls(ACC)), [st8, "SetpointG", 15, "ALL"], {})
+                st8.attrs["accessors"] = {KEY8: units8, "SetpointG": temp8}
+                it8.steps = 0
+                shown = it8.getattr(temp8, "value")
+                for wname in ("_set_value", "async_set_value"):
+                    it8.steps = 0
+                    it8.call(repo.method(ACC, wname), temp8, [want])
+            except PyRaise as e:
+                shown = f"raises {e.what}"
+            except Undecided as e:
+                raise AnalysisError(f"{ACC} on real bytes (raw {raw}, unit {unit}): {e}")
+            n8 += 1
+            import math as _m
+            # the statement's formula over the reals: a last-place difference (x * 0.1 for x / 10) is not a different temperature
+            ctx.ob(rule, f"{ACC}::presents::{unit}::raw={raw}", isinstance(shown, float) and _m.isclose(shown, want, rel_tol=1e-12, abs_tol=1e-12),
+                   f"{ACC} presents the stored word {raw} (unit {unit}) as {shown!r}, expected {want!r} = {'raw/18' if unit == 'C' else '(raw+320)/10'}", repo.own_method(ACC, "_get_value").loc,
+                   sample={"rule": rule, "raw": raw, "unit": unit, "presented": str(shown)} if raw in (670, 40000) else None)
+            ctx.ob(rule, f"{ACC}::writes-back::{unit}::raw={raw}", [w[-1] for w in writes] == [raw, raw] and all(w[:2] == (15, 2) for w in writes),
+                   f"writing {want!r} (unit {unit}) through both writers hands {writes} to the device write, expected (15, 2, {raw}) twice", repo.own_method(ACC, "_set_value").loc)
+    ctx.floor(rule, "temperature words on real bytes", n8, 18)
+
+
 def check(ctx):
     repo = Repo()
     ctx.rule("R5", "heater setters are pass-through: set_target_temperature / async_set_target_temperature hand the caller's value unchanged to the accessor's setter on every path from entry")
@@ -403,43 +445,7 @@ def check(ctx):
 
     # ---- R8 the temperature item on real bytes -------------------------------------------------------------
     ctx.rule("R8", "the temperature item end to end on real bytes: unit item and temperature item built by their constructors on a model structure - for words across the whole 16-bit range (incl. >= 32768) and both units the item presents exactly raw/18 or (raw+320)/10, and writing that value through either writer hands the same word to the device write")
-    from ..absint import ClassRef as _CR8, Native as _N8, Obj as _O8
-    gc8 = repo.cls("GeckoConstants")
-    KEY8 = repo.fold(gc8.consts["KEY_TEMP_UNITS"], gc8.mod, gc8)
-    n8 = 0
-    for unit_bit, unit in ((0, "C"), (1, "F")):
-        for raw in (0, 1, 670, 671, 719, 32767, 32768, 40000, 65535):
-            blk = bytearray(64)
-            blk[13] = 0x04 if unit_bit else 0
-            blk[15], blk[16] = raw >> 8, raw & 0xFF
-            it8 = Interp(repo, max_depth=12)
-            writes = []
-            st8 = _O8(None, {"status_block": bytes(blk), "accessors": {}}, name="struct")
-            st8.attrs["set_value"] = _N8(lambda a, k, w=writes: w.append(tuple(a)), "set_value")
-            st8.attrs["async_set_value"] = _N8(lambda a, k, w=writes: w.append(tuple(a)), "async_set_value")
-            want = raw / 18.0 if unit == "C" else (raw + 320) / 10.0
-            try:
-                units8 = it8.apply(_CR8(repo.cls("GeckoEnumStructAccessor")), [st8, KEY8, 13, 2, ["C", "F"], None, 2, "ALL"], {})
-                temp8 = it8.apply(_CR8(repo.cls(ACC)), [st8, "SetpointG", 15, "ALL"], {})
-                st8.attrs["accessors"] = {KEY8: units8, "SetpointG": temp8}
-                it8.steps = 0
-                shown = it8.getattr(temp8, "value")
-                for wname in ("_set_value", "async_set_value"):
-                    it8.steps = 0
-                    it8.call(repo.method(ACC, wname), temp8, [want])
-            except PyRaise as e:
-                shown = f"raises {e.what}"
-            except Undecided as e:
-                raise AnalysisError(f"{ACC} on real bytes (raw {raw}, unit {unit}): {e}")
-            n8 += 1
-            import math as _m
-            # the statement's formula over the reals: a last-place difference (x * 0.1 for x / 10) is not a different temperature
-            ctx.ob("R8", f"{ACC}::presents::{unit}::raw={raw}", isinstance(shown, float) and _m.isclose(shown, want, rel_tol=1e-12, abs_tol=1e-12),
-                   f"{ACC} presents the stored word {raw} (unit {unit}) as {shown!r}, expected {want!r} = {'raw/18' if unit == 'C' else '(raw+320)/10'}", repo.own_method(ACC, "_get_value").loc,
-                   sample={"rule": "R8", "raw": raw, "unit": unit, "presented": str(shown)} if raw in (670, 40000) else None)
-            ctx.ob("R8", f"{ACC}::writes-back::{unit}::raw={raw}", [w[-1] for w in writes] == [raw, raw] and all(w[:2] == (15, 2) for w in writes),
-                   f"writing {want!r} (unit {unit}) through both writers hands {writes} to the device write, expected (15, 2, {raw}) twice", repo.own_method(ACC, "_set_value").loc)
-    ctx.floor("R8", "temperature words on real bytes", n8, 18)
+    temperature_on_real_bytes(ctx, repo, "R8")
 
     ctx.rule("R10", "the flags as shipped: for every shape the Heating / CoolingDown items have in any shipped table (Bool, or a 2-bit enum with three 'Heating' labels) and every raw value of the field, a GeckoBinarySensor on the real item reads on exactly when the decoded value says so")
     flag_sensors_on_shipped_items(ctx, repo, "R10")
